@@ -154,14 +154,18 @@ def _shared_object(v):
     return not callable(v)
 
 
-def hot_lines(code, globs):
-    """Lines of `code` that read or write state shared between calls: stores to globals, any use of a
+def hot_lines(code, globs, strict=False):
+    """strict=True: only lines that name a module-level shared object, store a global or mutate state of
+    a module (not the broad "stores into whatever it holds" criterion): used for pre-emption points
+    INSIDE a line, where the shared state has to be on that very line.
+
+    Lines of `code` that read or write state shared between calls: stores to globals, any use of a
     module-level mutable object, and -- in functions that are not rule bodies -- stores into
     attributes or items of whatever they hold.  A schedule that pre-empts at and right after such
     lines lands inside check-then-act and publish-before-complete windows.  On the unchanged tree
     this is the driver's memo stores, the finaliser's metadata writes and the entry points."""
     import dis
-    key = code          # the same code always lives in module dicts of the same shape
+    key = (code, strict)          # the same code always lives in module dicts of the same shape
     hit = _HOT_CACHE.get(key)
     if hit is not None:
         return hit
@@ -204,13 +208,46 @@ def hot_lines(code, globs):
             out.add(line)
             continue
         # in generated driver-level functions: stores into whatever they hold (memo, metadata, wrappers)
-        if generated and not rule_body and (stores or mutcall):
+        if generated and not rule_body and (stores or mutcall) and not strict:
             out.add(line)
     res = frozenset((code, ln) for ln in out)
     if len(_HOT_CACHE) > 5000:
         _HOT_CACHE.clear()
     _HOT_CACHE[key] = res
     return res
+
+
+_IPOINT_CACHE = {}
+_CALL_OPS = frozenset(n for n in _opcode.opmap if n.startswith('CALL') or n in ('BINARY_SUBSCR', 'STORE_SUBSCR', 'LOAD_ATTR',
+                                                                                  'STORE_ATTR', 'CONTAINS_OP', 'COMPARE_OP',
+                                                                                  'BINARY_OP', 'GET_ITER', 'FOR_ITER', 'SEND'))
+
+
+def instr_points(code, hot):
+    """Instruction offsets INSIDE shared-state lines of `code` at which another thread could get to run
+    in CPython: right after an instruction that calls out (a call, or an operation that may run a
+    method: subscription, attribute access, comparison, arithmetic, iteration).  hot: set of (code, line)."""
+    import dis
+    key = code
+    hit = _IPOINT_CACHE.get(key)
+    if hit is not None:
+        return hit
+    lines = {ln for c, ln in hot if c is code}
+    pts = {}
+    if lines:
+        line = code.co_firstlineno
+        prev = None
+        for ins in dis.get_instructions(code):
+            if ins.starts_line is not None:
+                line = ins.starts_line
+                prev = None          # the first instruction of a line is a LINE event already
+            if prev is not None and line in lines and prev in _CALL_OPS:
+                pts[ins.offset] = line
+            prev = ins.opname
+    if len(_IPOINT_CACHE) > 5000:
+        _IPOINT_CACHE.clear()
+    _IPOINT_CACHE[key] = pts
+    return pts
 
 
 # ----------------------------------------------------------------------------- tasks
@@ -255,6 +292,25 @@ def _on_line(code, line):
             sim._switch(t, o, code.co_name, line)
 
 
+def _on_instr(code, offset):
+    sim = _SIM
+    if sim is None:
+        return
+    pts = sim.ipoints.get(code)
+    if pts is None:
+        return
+    line = pts.get(offset)
+    if line is None:
+        return
+    t = sim.cur
+    if t is None or t.ident != threading.get_ident():
+        return
+    sim.ipoint_hits += 1
+    o = sim.policy.on_instr(sim, t, code, offset)
+    if o is not None:
+        sim._switch(t, o, code.co_name, line, offset)
+
+
 class Sim:
     """One simulated phase: a set of client tasks run to completion under a policy."""
 
@@ -270,6 +326,10 @@ class Sim:
         self.pairs = set()      # overlap pairs: (code the pre-empted task was in, code the resumed task is parked in)
         self.hot = set()        # (code, line) touching state shared between calls (hot_lines)
         self.hot_hits = 0
+        self.hot_strict = set() # the subset of hot that names module-level shared state on the line itself
+        self.ipoints = {}       # code -> {instruction offset: line}: pre-emption points inside shared-state lines
+        self.ipoint_hits = 0
+        self.ipoint_codes = []
         self._main = threading.Semaphore(0)
         self.failed = None
 
@@ -278,6 +338,30 @@ class Sim:
         t = Task(len(self.tasks), fn)
         self.tasks.append(t)
         return t
+
+    def enable_instr(self, codes=None):
+        """Pre-emption inside source lines: INSTRUCTION events on the code objects that own shared-state
+        lines (Sim.hot), at the offsets computed by instr_points()."""
+        install()
+        _mon.register_callback(TOOL, E.INSTRUCTION, _on_instr)
+        owners = {c for c, _ in self.hot_strict} if codes is None else set(codes)
+        for c in owners:
+            if c in self.ipoints:
+                continue
+            pts = instr_points(c, self.hot_strict)
+            if pts:
+                self.ipoints[c] = pts
+                self.ipoint_codes.append(c)
+                _mon.set_local_events(TOOL, c, _mon.get_local_events(TOOL, c) | E.LINE | E.INSTRUCTION)
+
+    def disable_instr(self):
+        for c in self.ipoint_codes:
+            try:
+                _mon.set_local_events(TOOL, c, _mon.get_local_events(TOOL, c) & ~E.INSTRUCTION)
+            except Exception:
+                pass
+        self.ipoint_codes = []
+        self.ipoints = {}
 
     # -- running
     def run(self, wall_timeout=120.0):
@@ -335,12 +419,17 @@ class Sim:
         self.cur = o
         o.sem.release()
 
-    def _switch(self, t, o, name, line):
+    def _switch(self, t, o, name, line, offset=None):
         if o is t or o.done:
             return
-        self.switches.append([t.i, t.local, o.i])
-        self.log.append(('sw', self.step, t.i, o.i, name, line))
-        self.sig.append((t.i, t.label, name, line))
+        if offset is None:
+            self.switches.append([t.i, t.local, o.i])
+            self.log.append(('sw', self.step, t.i, o.i, name, line))
+        else:
+            # inside a source line: the switch is identified by the line step and the instruction offset
+            self.switches.append([t.i, t.local, o.i, offset])
+            self.log.append(('swi', self.step, t.i, o.i, name, line, offset))
+        self.sig.append((t.i, t.label, name, line) if offset is None else (t.i, t.label, name, line, offset))
         self.pairs.add((name, o.where))
         t.where = name
         self.cur = o
@@ -372,6 +461,9 @@ class Policy:
         return sim.tasks[0]
 
     def on_step(self, sim, t, code, line):
+        return None
+
+    def on_instr(self, sim, t, code, offset):
         return None
 
     def on_boundary(self, sim, t):
@@ -627,6 +719,39 @@ class OneShot(Targeted):
         return {'policy': self.name, 'j': self.j}
 
 
+class InstrShot(OneShot):
+    """One window injection per run INSIDE a source line: at the j-th visit of an instruction-level
+    pre-emption point (instr_points: right after a call-out within a shared-state line) the other
+    client runs one whole operation before the line completes -- `d[k] = d.get(k) or make(k)`,
+    `ids[name] = len(ids)`, `obj.attr = build(obj.attr)` are check-then-act windows that no
+    line-level schedule can enter."""
+    name = 'instr-shot'
+    cap = 3
+
+    def begin(self, sim):
+        sim.next_check = INF
+
+    def on_step(self, sim, t, code, line):
+        return None
+
+    def on_instr(self, sim, t, code, offset):
+        if self.grace is t or self.fired:
+            return None
+        k2 = (code, offset)
+        n = self.visits.get(k2, 0) + 1
+        if n > self.cap:
+            return None
+        self.visits[k2] = n
+        self.count += 1
+        if self.count == self.j:
+            self.fired = True
+            return self._inject(sim, t)
+        return None
+
+    def describe(self):
+        return {'policy': self.name, 'j': self.j, 'cap': self.cap}
+
+
 class FirstVisit(Policy):
     """Pre-empt where a line of the system under test is executed for the first time in this run
     (by any client): lazy initialisation, check-then-act on shared state and publish-before-
@@ -677,10 +802,14 @@ class Replay(Policy):
 
     def __init__(self, switches, first=None):
         self.table = {}
+        self.itable = {}
         self.ends = {}
-        for f, n, to in switches:
+        for sw in switches:
+            f, n, to = sw[0], sw[1], sw[2]
             if n == -1:
                 self.ends[f] = to
+            elif len(sw) > 3 and sw[3] is not None:
+                self.itable.setdefault(f, {}).setdefault((n, sw[3]), to)
             else:
                 self.table.setdefault(f, {})[n] = to
         self.first_id = first
@@ -705,6 +834,16 @@ class Replay(Policy):
 
     def on_step(self, sim, t, code, line):
         return self._target(sim, t)
+
+    def on_instr(self, sim, t, code, offset):
+        tab = self.itable.get(t.i)
+        if not tab:
+            return None
+        to = tab.pop((t.local, offset), None)       # the first time this (line step, offset) is reached
+        if to is None or to >= len(sim.tasks):
+            return None
+        o = sim.tasks[to]
+        return None if (o.done or o is t) else o
 
     def on_boundary(self, sim, t):
         return self._target(sim, t)
